@@ -21,12 +21,13 @@ CLAIMS = {
             "of the new entry (descend, subsumption short-cut, new leaf, split into child'/grandchildren), including the Go code's peculiar duplicate test in node.add. Tie: tree suite (ParsePattern+Insert / Parse+Contains on pattern lists sharing "
             "non-boundary suffixes with probes derived from every pattern), lex suite (Parse), decision bits of the serve suite.",
             '6/C01', "C01_parsed/C01_config/C01_request assume that the IPv6 oracle never accepts a literal starting with `*` (true of netip.ParseAddr). C01_browser (every serialisable origin is parsed by origins.Parse) is not proved; bracketed non-IP hosts are matched after bracket stripping (DESIGN 8.9)."),
-    'C02': ('proof', 'Lean 4 theorems (partial: server-side verdict of the preflight pipeline in both debug modes) + strict differential tie of whole responses',
-            "PARTIAL. Theorems C02_preflight_verdict (debug off: the middleware answers a preflight with the success status exactly when the four documented conditions hold - origin parses and is allowed or allow-all without credentials; "
-            "private-network access not asked or enabled; method safelisted, `*` or listed; no ACRH field, `*`, or a non-empty discrete list approving the lines), C02_debug_steps (debug on: same origin/PNA/method conditions; header step succeeds iff `*` or a discrete list is configured) "
-            "and steps_ok_iff (Props/C02.lean), for every decision oracle (hence, with C01 and C14, in terms of pattern denotations and Spec.approved). NOT proved: the browser side (CORS-preflight fetch step 7 and the CORS check applied to the emitted Allow-* values) "
-            "and therefore the end-to-end equality with the configuration's meaning; that part rests on the serve suite (full strict comparison of status, every header and the decision bits, both debug modes, ACRH perturbations).",
-            '6/C02', 'PARTIAL: no Lean model of the browser algorithm yet; the reading of the Fetch standard is therefore not part of any theorem.'),
+    'C02': ('proof', 'Lean 4 theorem (browser verdict computed by a transcription of CORS-preflight fetch / CORS check on the model\'s responses = documented meaning, all configurations x intents x debug modes x tolerated ACRH shapes) + strict differential tie of whole responses + browser verdict evaluated in Lean on the implementation\'s responses',
+            "Theorems C02 / C02_accepted / C02_invariance (Props/C02.lean): for every accepted configuration (what acceptance guarantees is itself proved: ICfg.WF, ICfg.ReqHdrsSound), either debug mode, every browser intent (serialised origin, method token, "
+            "token header names, credentials mode, private-network target) and every tolerated shape of the ACRH list (Browser.Tolerated: split over lines, <=1 OWS byte per side, <=16 empty elements), Browser.verdict - the transcription of "
+            "CORS-preflight fetch step 7, the PNA requirement and the CORS check in Spec/Browser.lean, evaluated on the responses of the model of Wrap - equals Browser.permits, the documented meaning; hence the verdict is independent of debug mode and of tolerated alterations. "
+            "C02_preflight_verdict / C02_debug_steps / steps_ok_iff: server-side characterisation of the pipeline for every decision oracle. With C01_request the origin clause is `some listed pattern denotes the origin`. "
+            "Tie: serve suite (strict comparison of status, every header and the decision bits, both debug modes, ACRH perturbations) and intents suite (the same Browser.verdict computed by the Lean driver on the Go middleware's actual responses must equal Browser.permits of the model's internal configuration).",
+            '6/C02', 'Spec/Browser.lean is a trusted reading of the Fetch standard and PNA draft. Intents are restricted to serialised origins that the request-side lexer parses, method tokens and token header names (what browsers emit).'),
     'C03': ('proof', 'Lean 4 theorem (case analysis over the four dispatch paths, buffer invariant for the preflight pipeline) + differential tie',
             "Theorems C03 / C03_model / C03_accepted (Props/C03.lean): for every decision oracle, every accepted (well-formed) configuration, "
             "both debug modes, every request and pre-set headers, the model's response satisfies every clause of C03Spec (ACAO is `*` only for "
@@ -98,7 +99,7 @@ CLAIMS = {
             "suffix of the sorted set) equals Spec.approved: every element has at most one OWS byte per side, at most 16 (regenerated fact, proved = 16) elements are empty, the non-empty "
             "ones are allowed names in strictly increasing order. Corollaries: no unallowed name is ever approved; a browser's sorted unique list of allowed names is approved. "
             "Tie: acrh suite (headers.Check and TrimOWS directly, elements around the length cut-off, 0-3 OWS bytes, 15/16/17 empties, split lines) and the ACRH decision bit of the serve suite.",
-            '6/C14', 'C14_browser is proved for a single unpadded field line; tolerance of padded / split browser lists follows from C14 itself but is not yet stated as a separate theorem.'),
+            '6/C14', 'C14_browser_tolerated states completeness for every tolerated re-shaping (split lines, <=1 OWS byte per side, <=16 empties) of a sorted unique list.'),
     'C15': ('proof', 'Lean 4 theorem (twins build the same handler function: canonical sorted sets + order-independence of the three set folds + C01 for the tree) + relational twins suite computed on the Go side',
             "Theorem C15_full (Props/C15.lean): two accepted configurations whose lists mean the same sets (relation Twin, Proofs/Twins.lean: same origin patterns, same effective methods after normalisation, "
             "same effective header names after byte-lowercasing, `*` and Authorization listed in both or neither, equal scalars) satisfy Serve.serve i1 = Serve.serve i2 - the same function of debug flag, request and "
